@@ -77,6 +77,14 @@ fn replay(c: &mut Collector, rep: &Value) {
                 _ => bad("unknown order"),
             }
         }
+        "packed-aliases" => {
+            let ctx = Ctx { only: Some("packed-aliases".into()), ..Ctx::from_args("C12").0 };
+            let mut all = Collector::new();
+            packed::aliases(&ctx, &mut all);
+            let want = rep["signature"].as_str().unwrap_or("").to_string();
+            all.viol.retain(|k, _| *k == want);
+            c.merge(all);
+        }
         "packed-luma" => {
             let v = parse_u64(&case["input"]) as u16;
             match case["order"].as_str().unwrap_or("") {
@@ -131,6 +139,7 @@ fn real_main() -> i32 {
     packed::packed_order::<rch::Bgra>(&ctx, &mut total);
     packed::packed_order::<rch::Abgr>(&ctx, &mut total);
     packed::from_u32(&ctx, &mut total);
+    packed::aliases(&ctx, &mut total);
     packed::array16::<rch::Rgba>(&ctx, &mut total);
     packed::array16::<rch::Argb>(&ctx, &mut total);
     packed::array16::<rch::Bgra>(&ctx, &mut total);
